@@ -461,14 +461,19 @@ class ElementContainerType(Type):
     @property
     def singular_name(self):
         descr = self._singular_names[self.is_empty]
-        if not isinstance(self.element_type, AnyType):
+        if self.element_type is self:
+            # x.append(x): describing the elements would never end
+            descr += " of themselves"
+        elif not isinstance(self.element_type, AnyType):
             descr += " of " + self.element_type.plural_name
         return descr
 
     @property
     def plural_name(self):
         descr = self._plural_names[self.is_empty]
-        if not isinstance(self.element_type, AnyType):
+        if self.element_type is self:
+            descr += " of themselves"
+        elif not isinstance(self.element_type, AnyType):
             descr += " of " + self.element_type.plural_name
         return descr
 
